@@ -6,40 +6,48 @@ Import ListNotations.
 Open Scope N_scope.
 
 (* the exact effect of one iteration of commitStatus: no other key is touched; either nothing is written,
-   or the object still at the reconciled revision gets the new status (CompareAndSwap), or the CURRENT
-   object whose status is Pending with the reconciled id gets the new status; a retry is queued iff the
-   operation had failed and the status write happened *)
-Theorem C15_commit_effect : forall fixed now t q r t' q', keyed t ->
-  commit_one fixed now (t, q) r = (t', q') -> commit_effect fixed now t q r t' q'.
+   or the object still at the reconciled revision gets the new status (CompareAndSwap), or — when the
+   fallback applies — the CURRENT object gets the new status; a retry is queued iff the operation had
+   failed and the status write happened. In every case only the status component changes. *)
+Theorem C15_commit_effect : forall fixed efb now t q r t' q', keyed t ->
+  commit_one fixed efb now (t, q) r = (t', q') -> commit_effect fixed efb now t q r t' q'.
 Proof. exact commit_one_spec. Qed.
 Print Assumptions C15_commit_effect.
 
-(* a result is applied only if the revision equals the reconciled revision, or the status is Pending
-   with the reconciled id *)
-Theorem C15_applied_only_if_unchanged : forall fixed now t q r t' q', keyed t ->
-  commit_one fixed now (t, q) r = (t', q') -> slot_of t' (o_pk (r_obj r)) <> slot_of t (o_pk (r_obj r)) ->
+(* the fallback applies exactly when the status is Pending with the reconciled id, or (fix 8844901) the
+   result is a retry (rev <> origRev) and the object still carries our Error status *)
+Theorem C15_fallback_condition : forall efb cur r, fallback_ok efb cur r = true <->
+  (o_kind cur = Pending /\ o_sid cur = r_id r) \/ (efb = true /\ o_kind cur = Error /\ r_rev r <> r_orig r).
+Proof. exact fallback_ok_spec. Qed.
+Print Assumptions C15_fallback_condition.
+
+(* a result is applied only if the object is unchanged (reconciled revision), or Pending with the
+   reconciled id, or still carrying our Error status on a retry *)
+Theorem C15_applied_only_if_unchanged : forall fixed efb now t q r t' q', keyed t ->
+  commit_one fixed efb now (t, q) r = (t', q') -> slot_of t' (o_pk (r_obj r)) <> slot_of t (o_pk (r_obj r)) ->
   exists cur rv, t_live t (o_pk (r_obj r)) = Some (cur, rv) /\
-    (rv = r_rev r \/ (o_kind cur = Pending /\ o_sid cur = r_id r)).
+    (rv = r_rev r \/ (o_kind cur = Pending /\ o_sid cur = r_id r) \/
+     (efb = true /\ o_kind cur = Error /\ r_rev r <> r_orig r)).
 Proof. exact commit_one_applies_only_if. Qed.
 Print Assumptions C15_applied_only_if_unchanged.
 
 (* deleted meanwhile (or never there): nothing is written, no re-creation, no retry queued *)
-Theorem C15_deleted_object_not_recreated : forall fixed now t q r t' q', keyed t ->
-  commit_one fixed now (t, q) r = (t', q') -> not_live t (o_pk (r_obj r)) ->
+Theorem C15_deleted_object_not_recreated : forall fixed efb now t q r t' q', keyed t ->
+  commit_one fixed efb now (t, q) r = (t', q') -> not_live t (o_pk (r_obj r)) ->
   (forall k, slot_of t' k = slot_of t k) /\ t_rev t' = t_rev t /\ q' = q.
 Proof. exact commit_one_never_inserts. Qed.
 Print Assumptions C15_deleted_object_not_recreated.
 
 (* a retry is queued only if the Error status was written *)
-Theorem C15_retry_only_if_status_written : forall fixed now t q r t' q', keyed t ->
-  commit_one fixed now (t, q) r = (t', q') -> q' <> q -> r_ok r = false /\ t_rev t' = t_rev t + 1.
+Theorem C15_retry_only_if_status_written : forall fixed efb now t q r t' q', keyed t ->
+  commit_one fixed efb now (t, q) r = (t', q') -> q' <> q -> r_ok r = false /\ t_rev t' = t_rev t + 1.
 Proof. exact commit_one_retry_only_if_written. Qed.
 Print Assumptions C15_retry_only_if_status_written.
 
 (* a whole commitStatus changes nothing but the status: every key keeps its payload version, deleted and
    absent keys stay as they are (results = objects identified by their revision, one per key) *)
-Theorem C15_commit_changes_status_only : forall fixed now res t q t' q', keyed t -> res_consistent t res ->
-  commit_status_gen fixed now t q res = (t', q') ->
+Theorem C15_commit_changes_status_only : forall fixed efb now res t q t' q', keyed t -> res_consistent t res ->
+  commit_status_gen fixed efb now t q res = (t', q') ->
   keyed t' /\ (forall k, payload t' k = payload t k) /\ (forall k, not_live t k -> slot_of t' k = slot_of t k).
 Proof. exact commit_status_status_only. Qed.
 Print Assumptions C15_commit_changes_status_only.
@@ -48,6 +56,7 @@ Print Assumptions C15_commit_changes_status_only.
    of the change cursor, a failed one has a queued retry for exactly the written revision *)
 Theorem C15_dropped_result_reconciled_again : forall D c now res t q t' q',
   keyed t -> uniq q -> NoDup (map (fun r => o_pk (r_obj r)) res) ->
+  (forall r, In r res -> r_orig r <= t_rev t) ->
   (forall pk, covered D t c res q pk) -> commit_status now t q res = (t', q') ->
   forall pk, covered D t' c [] q' pk.
 Proof. exact commit_status_covers. Qed.
